@@ -62,6 +62,8 @@ class G:
         return self.r.choice(LAYOUTS) if self.r.random() < 0.6 else 'C'
 
     def arr(self, dtype, shape, fill='rand', **k):
+        if dtype in FLT and fill in ('rand', 'bool', 'labels') and 'negzero' not in k and self.r.random() < 0.4:
+            k['negzero'] = 1        # float images with zeros of either sign (see harness/specs.py: build_array)
         return A(dtype=dtype, shape=list(shape), fill=fill, seed=self.seed(), layout=k.pop('layout', None) or self.layout(), **k)
 
     def dtype(self, pool=None):
